@@ -747,6 +747,11 @@ class CSym(object):
                 continue
             outv = out.off if isinstance(out, Ptr) else tm.lift(out) if isinstance(out, (int, Q, T)) else None
             if outv is None:
+                if isinstance(out, Undef):
+                    # became the counter of an inner loop: dead at the end of every iteration; pass B starts the iteration with it undefined, so a
+                    # read before it is written again is reported as unsupported rather than given a wrong value
+                    forms[name] = ("temp", None, None)
+                    continue
                 raise CUnsupported("loop-carried variable %s changes kind" % name)
             if outv is e:
                 continue
@@ -937,6 +942,13 @@ class CSym(object):
         c_ = closed_trunc(t)
         if c_ is not None:
             return c_
+        # (int)(sqrt(u) + c) with an integer u (a C int, so u < 2^31) and a fudge 0 <= c <= 1e-6: k = floor(sqrt(u) + c) gives (k - c)^2 <= u < (k + 1 - c)^2,
+        # and for integers with 2 k c < 1 (k < 46341 for a C int) that is k^2 <= u < (k + 1)^2 — the same facts as for c = 0
+        if t.op == "+" and len(t.args) == 2:
+            cs_ = [a for a in t.args if a.op == "c"]
+            rt_ = [a for a in t.args if a.op == "^" and a.args[1].op == "c" and a.args[1].args[0] == Q(1, 2)]
+            if len(cs_) == 1 and len(rt_) == 1 and 0 <= cs_[0].args[0] <= Q(1, 10 ** 6) and _is_int_term(rt_[0].args[0]):
+                t = rt_[0]
         if t.op == "^" and t.args[1].op == "c" and t.args[1].args[0] == Q(1, 2):
             key = t.id
             if key not in self._isqrt:
